@@ -75,3 +75,23 @@ Section Rfu.
     intros Hp H0 H6. apply poisoned_block_rejected. right. exact (dyn_rfu_ctl _ _ _ _ _ dp Hp H0 H6).
   Qed.
 End Rfu.
+
+(* "15 = keep" in a later LinkADRReq refers to the configuration in force at that point of the command sequence: whatever request h1 was
+   reached by (an earlier accepted block, say), a DevStatusReq in between, and a fully acknowledged LinkADRReq with DataRate = 15 /
+   TXPower = 15 leave the data rate / power of h1 in force *)
+From LoraV Require Import Proofs.CmdProofs.
+Theorem linkadr_keep_after_other_request snr h1 h2 h3 p :
+  handle_cmd snr h1 0x06 [] false = Val h2 ->
+  handle_cmd snr h2 0x03 p false = Val h3 ->
+  (N.shiftr (nthN p 0) 4 = 15 -> cf_data_rate (h_cf h3) = cf_data_rate (h_cf h1)) /\
+  (N.land (nthN p 0) 15 = 15 -> cf_tx_power (h_cf h3) = cf_tx_power (h_cf h1)).
+Proof.
+  intros H1 H2.
+  assert (E : h_cf h2 = h_cf h1) by (unfold handle_cmd in H1; cbv beta iota zeta in H1; injection H1 as <-; reflexivity).
+  destruct (linkadr_atomic snr h2 p h3 H2) as (ans & _ & _ & Hn & Hy & _).
+  destruct (N.eq_dec ans 7) as [->|Hne].
+  - destruct (Hy eq_refl) as (d & pw & m & Hcf & _ & Hd & Hp). rewrite Hcf. cbn [set_cfg cf_data_rate cf_tx_power]. split.
+    + intros K. destruct Hd as [[_ ->]|[Hx _]]; [rewrite E; reflexivity|contradiction].
+    + intros K. destruct Hp as [[_ ->]|[Hx _]]; [rewrite E; reflexivity|contradiction].
+  - destruct (Hn Hne) as [Hcf _]. rewrite Hcf, E. split; reflexivity.
+Qed.
